@@ -58,7 +58,7 @@ func init() {
 	c := eng.Register(&eng.Check{
 		ID:          "C04",
 		Title:       "Decimal arithmetic is exact",
-		Rule:        "operand grid of 880 decimals (40 coefficients incl. 15/16/17/33/34-digit patterns and powers of two around 2^53/2^63/2^64, 11 exponents within +-30, both signs): every ordered pair under + - * / %, every left- and right-nested chain of three operations over a sub-grid, float64/int/int64 data values (short and long binary expansions, beyond 2^53) alone, against the same literal and pairwise under +; each evaluated as '[e]' (decimal value) and as 'e' (returned float64) and compared with exact big-integer decimal arithmetic rounded half-even to 34 digits; distinct = distinct exact results",
+		Rule:        "operand grid of 880 decimals (40 coefficients incl. 15/16/17/33/34-digit patterns and powers of two around 2^53/2^63/2^64, 11 exponents within +-30, both signs): every ordered pair under + - * / %, every left- and right-nested chain of three operations over a sub-grid, float64/int/int64 data values (short and long binary expansions, whole numbers up to 2^52 with 1 to 16 fractional bits, beyond 2^53) alone, against the same literal and pairwise under +; each evaluated as '[e]' (decimal value) and as 'e' (returned float64) and compared with exact big-integer decimal arithmetic rounded half-even to 34 digits; distinct = distinct exact results",
 		TrustedBase: []string{"internal/ref/dec.go (exact decimals on math/big)", "strconv.ParseFloat/FormatFloat (correctly rounded)"},
 		Assumptions: []string{"division and remainder by zero are not judged (statement silent)", "a remainder that needs more than 34 digits is out of claim and only counted"},
 		Run:         runC04,
@@ -608,6 +608,20 @@ func dataFloats(quick bool) []float64 {
 	}
 	for e := -1074; e <= 1023; e += 7 {
 		fs = append(fs, math.Ldexp(1, e))
+	}
+	// whole numbers of every size with a few fractional bits: floats whose exact binary expansion is much
+	// longer than the shortest decimal that names them (123456789.0009765625 prints as 123456789.00097656)
+	for _, m := range []float64{1, 1000, 4194303, 4194305, 123456789, 1 << 30, 1<<33 + 1, 1e12 + 1, 1<<40 + 5, 1<<43 - 1, 1<<46 + 3, 1<<50 + 1, 1<<52 - 1} {
+		for b := 1; b <= 16; b++ {
+			den := math.Ldexp(1, b)
+			for _, j := range []float64{1, 3, den - 1} {
+				f := m + j/den
+				if f-m != j/den || (quick && b%3 == 2) {
+					continue // not representable: the sum was rounded
+				}
+				fs = append(fs, f, -f)
+			}
+		}
 	}
 	fs = append(fs, 5e-324, math.MaxFloat64, 9007199254740990, 9007199254740992, 9007199254740994, 30.749999000000003, 0.1, 0.2, 0.3, 1e22, 1e23, 1e-7, 123456789.125, 4.35, 2.675, 1.005)
 	return fs
